@@ -90,13 +90,20 @@ class Propagation(Contract):
         if self.how == "constructor":
             return {"value": v, "args": []}
         g = F.new(self.root)
+        if self.how == "attribute after replacing a nested group":
+            # a nested group assigned later is part of the tree like the one it replaces
+            for f in dataclasses.fields(self.root):
+                sub = F.attr(g, f.name)
+                vc = getattr(sub, "cls", type(sub))
+                if isinstance(vc, type) and issubclass(vc, dp.BaseParam):
+                    F.setattr(g, f.name, F.new(vc))
         before = {p: {f.name: F.attr(o, f.name) for f in dataclasses.fields(o.cls if not F.native else type(o))} for p, o in nested(F, g)}
         return {"group": g, "value": v, "before": before, "args": []}
 
     def invoke(self, F, inp):
         if self.how == "constructor":
             inp["group"] = F.new(self.root, **{self.name: inp["value"]})
-        elif self.how == "attribute":
+        elif self.how.startswith("attribute"):
             F.setattr(inp["group"], self.name, inp["value"])
         else:
             F.method(inp["group"], "__setitem__", self.name, inp["value"])
@@ -149,7 +156,7 @@ def _shared_names(root):
 
 for _root in (dp.MPDrawParams, dp.DynamicObstacleParams, dp.LaneletNetworkParams, dp.PlanningProblemSetParams, dp.OccupancyParams):
     for _name in _shared_names(_root):
-        for _how in (("attribute", "item", "constructor") if _name in ("time_begin", "time_end", "antialiased") else ("attribute",)):
+        for _how in (("attribute", "item", "constructor", "attribute after replacing a nested group") if _name in ("time_begin", "time_end", "antialiased") else ("attribute",)):
             register(Propagation(_root, _name, _how))
 
 
